@@ -467,7 +467,12 @@ func c03SizingBoundaryCfg(r *vlib.Rand) *pmmvConfig {
 		words[i] = uint64(r.Range(1, 40))
 		sum += words[i]
 	}
-	words[p-1] = (512 + 1 - sum%512) % 512
+	// ... or, one time in three, exactly on a page multiple (the last bookkeeping page is used up to its last byte)
+	past := uint64(1)
+	if r.Intn(3) == 0 {
+		past = 0
+	}
+	words[p-1] = (512 + past - sum%512) % 512
 	if words[p-1] == 0 {
 		words[p-1] = 512
 	}
@@ -545,7 +550,7 @@ func c03SkippedPoolCfg(r *vlib.Rand) *pmmvConfig {
 func TestVerifC03(t *testing.T) {
 	run := vlib.Start(t, "C03")
 	defer run.Finish()
-	run.SetRule("case = generated memory map + kernel placement (generator shared with C01; in half of the cases every available region has a word-boundary frame count 1,2,63,64,65,127,128,129,191,192,193,64k-1,64k,64k+1) + mode (normal | reserveRegionFn fails | mapFn fails on call 0-2 | one region of 2^20..2^31 frames with a failing reservation, sizing only); 1 case in 30 is a sizing-boundary map: 2-8 pools with odd frame counts whose bookkeeping ends 8 bytes past a page multiple, and 1 in 30 a map where the kernel fills a whole region that lies between regions of 1-3 frames, so that the early-boot allocations are taken in front of and behind a region the boot allocator skips; normal mode: layout and sizing check, bad frees (frame 0, InvalidFrame, gaps, non-available regions, partial pages, just before/past each pool, padding bits, never-allocated and twice-freed frames) with a full bitmap snapshot around each, partial allocation, drain to OOM, free of subsets and re-drain, accounting compared after every step; non-trivial = Init succeeded, >=2 available regions with whole frames, >=1 word-boundary region, drain reached OOM and >=1 re-drain was compared; distinct = fingerprint of (memory map, kernel placement, mode)")
+	run.SetRule("case = generated memory map + kernel placement (generator shared with C01; in half of the cases every available region has a word-boundary frame count 1,2,63,64,65,127,128,129,191,192,193,64k-1,64k,64k+1) + mode (normal | reserveRegionFn fails | mapFn fails on call 0-2 | one region of 2^20..2^31 frames with a failing reservation, sizing only); 1 case in 30 is a sizing-boundary map: 2-8 pools with odd frame counts whose bookkeeping ends 8 bytes past or exactly on a page multiple, and 1 in 30 a map where the kernel fills a whole region that lies between regions of 1-3 frames, so that the early-boot allocations are taken in front of and behind a region the boot allocator skips; normal mode: layout and sizing check, bad frees (frame 0, InvalidFrame, gaps, non-available regions, partial pages, just before/past each pool, padding bits, never-allocated and twice-freed frames) with a full bitmap snapshot around each, partial allocation, drain to OOM, free of subsets and re-drain, accounting compared after every step; non-trivial = Init succeeded, >=2 available regions with whole frames, >=1 word-boundary region, drain reached OOM and >=1 re-drain was compared; distinct = fingerprint of (memory map, kernel placement, mode)")
 	run.Assume("mapFn and reserveRegionFn are stubbed; the bookkeeping memory is a guard-paged host arena of exactly the requested (page-rounded) size, so over-runs are caught at page granularity and by the layout check at byte granularity")
 	run.Assume("frames reserved at hand-over (kernel image, early-boot frames) are never passed to FreeFrame: the statement leaves that undefined; which of the two errors a rejected free returns is counted, not demanded")
 
